@@ -76,9 +76,20 @@ impl BetTable {
     ) -> Result<Self> {
         reader.seek(SeekFrom::Start(offset))?;
 
-        // Read the compressed/encrypted data
-        let mut data = vec![0u8; compressed_size as usize];
-        reader.read_exact(&mut data)?;
+        // Read the compressed/encrypted data. `compressed_size` is a 64-bit header
+        // value (or derived from header positions): read through `take` so the buffer
+        // only grows as far as the archive really delivers data, then check the length.
+        let mut data = Vec::new();
+        reader
+            .by_ref()
+            .take(compressed_size)
+            .read_to_end(&mut data)?;
+        if data.len() as u64 != compressed_size {
+            return Err(Error::invalid_format(format!(
+                "BET table truncated: header says {compressed_size} bytes, archive has {}",
+                data.len()
+            )));
+        }
 
         // Check if we have at least the extended header (12 bytes)
         if data.len() < 12 {
@@ -182,20 +193,42 @@ impl BetTable {
         let data_start = 12 + std::mem::size_of::<BetHeader>();
         let mut cursor = std::io::Cursor::new(&table_data[data_start..]);
 
+        // The counts below come from the (decrypted, possibly decompressed) BET header.
+        // Check each array against the table bytes that are left before allocating it.
+        let remaining = |cursor: &std::io::Cursor<&[u8]>| -> u64 {
+            (cursor.get_ref().len() as u64).saturating_sub(cursor.position())
+        };
+
         // Read file flags
+        if header.flag_count as u64 * 4 > remaining(&cursor) {
+            return Err(Error::invalid_format(format!(
+                "BET flag count {flag_count} exceeds table data"
+            )));
+        }
         let mut file_flags = Vec::with_capacity(header.flag_count as usize);
         for _ in 0..header.flag_count {
             file_flags.push(cursor.read_u32::<LittleEndian>()?);
         }
 
         // Calculate sizes
-        let file_table_size =
-            (header.file_count as usize * header.table_entry_size as usize).div_ceil(8);
+        let file_table_bytes =
+            (header.file_count as u64 * header.table_entry_size as u64).div_ceil(8);
+        if file_table_bytes > remaining(&cursor) {
+            return Err(Error::invalid_format(format!(
+                "BET file table ({file_count} entries of {table_entry_size} bits) exceeds table data"
+            )));
+        }
+        let file_table_size = file_table_bytes as usize;
         let mut file_table = vec![0u8; file_table_size];
         cursor.read_exact(&mut file_table)?;
 
         // Read BET hashes
         let hash_count = header.bet_hash_array_size / 8; // Each hash is 8 bytes
+        if hash_count as u64 * 8 > remaining(&cursor) {
+            return Err(Error::invalid_format(format!(
+                "BET hash array ({hash_count} entries) exceeds table data"
+            )));
+        }
         let mut bet_hashes = Vec::with_capacity(hash_count as usize);
         for _ in 0..hash_count {
             bet_hashes.push(cursor.read_u64::<LittleEndian>()?);
